@@ -93,6 +93,19 @@ func c01LoadCorpus() *c01Corpus {
 		}
 		add("history", it)
 	}
+	// one header item per proof era (the smallest above is pre-merge): historical roots,
+	// historical summaries with the Capella and with the Deneb proof shape
+	for _, era := range [][2]uint64{{15_537_394, 17_034_870}, {17_034_870, 19_426_587}, {19_426_587, 1 << 62}} {
+		var best *c02Seed
+		for _, s := range h.Seeds {
+			if n := s.Block.Header.Number.Uint64(); strings.HasPrefix(s.Name, "mainnet-") && strings.HasSuffix(s.Name, "/header-by-hash") && n >= era[0] && n < era[1] && len(s.Content) > 0 && (best == nil || len(s.Content) < len(best.Content)) {
+				best = s
+			}
+		}
+		if best != nil {
+			add("history", &c01Item{Name: best.Name, Key: best.Key, Content: best.Content, Stored: true, Header: best.Block.Header})
+		}
+	}
 	for _, s := range h.Seeds {
 		if s.Name == "synth-shanghai-3tx-1unc/body" || s.Name == "synth-legacy-3tx-0unc/receipts" {
 			add("history", &c01Item{Name: s.Name, Key: s.Key, Content: s.Content, Stored: true, Header: s.Block.Header})
